@@ -352,7 +352,20 @@ def c_dev16(run):
     r16_tables.tables_rot(run)
     r16_tables.rotation_words(run)
     r16_tables.tables_frames(run)
+    r16_tables.tables_c02(run)
+    from .rules import r15_closed
+    r15_closed.check_unchecked_sites(run)
+    r15_closed.check_unitquaternion_ctor(run)
     run.explanation = 'dev R16'
 
 
 CHECKS['DEV16'] = c_dev16
+
+
+def c_dev14(run):
+    from .rules import r14_interp
+    r14_interp.run_r14(run)
+    run.explanation = 'dev R14'
+
+
+CHECKS['DEV14'] = c_dev14
